@@ -150,6 +150,12 @@ def check(case) -> CaseResult:
         return res
     if st_["wrapped"]:
         res.label("ring_wrapped")
+    sched_ = compiledrun.schedule_of(graph)
+    per_kind = {}
+    for s_ in sched_.values():
+        per_kind[s_["kind"]] = per_kind.get(s_["kind"], 0) + s_["run"].astype(int)
+    if any((v >= 11).any() for v in per_kind.values()):
+        res.label("kind_runs_11plus_times_in_a_partition")
     # ---------------- (a) dynamic
     E = len(raw["episodes"])
     P = int(graph.max_steps) + 1
@@ -171,8 +177,16 @@ def check(case) -> CaseResult:
             for p in range(s0, s0 + N):
                 if s["run"][eps_eff, p] and not (s["kind"] == sup and False):
                     ran[(s["kind"], int(s["seq"][eps_eff, p]))] = (p, s["generation"], sname)
+        # steps of one node must execute in sequence order: the probe's own step counter (part of its state) tells
+        rank = {}
+        for kind_ in {k_[0] for k_ in ran}:
+            for i_, k_ in enumerate(sorted(q for (kk, q) in ran if kk == kind_)):
+                rank[(kind_, k_)] = i_
         for (kind, k), (p, g, sname) in ran.items():
             rows = B.get((kind, eps_eff, k))
+            if rows and kind != sup and int(rows[0]["cnt"]) != rank[(kind, k)]:
+                res.fail("C08.steps_of_a_node_executed_out_of_sequence_order", dict(node=kind, seq=k, executed_as_number=int(rows[0]["cnt"]), want=rank[(kind, k)], mode=case["mode"], prune=case["prune"]))
+                return res
             if not rows:
                 res.fail("C08.scheduled_step_not_executed", dict(kind=kind, seq=k, partition=p))
                 return res
